@@ -1,2 +1,35 @@
-(* placeholder: theorems follow *)
-From Mos Require Import Base.Prelude.
+(* C01 — malformed input never crashes, hangs or wedges the proxy (decoder part).
+   Only statements; proofs live in Codec/*Proofs.v. *)
+From Mos Require Import Base.Prelude Codec.Name Codec.Msg Codec.NameProofs Codec.SafetyProofs Codec.WfProofs.
+
+(* Name decoding terminates for EVERY octet list and offset — pointer loops included — within a
+   concrete fuel bound, and never indexes out of range (safe = not Panic and not OutOfFuel). *)
+Theorem C01_name_terminates : forall (msg : list N) (off fuel : nat),
+  264 < fuel -> safe (unpack_name_go fuel msg off 0 off []).
+Proof. exact unpack_name_terminates. Qed.
+Print Assumptions C01_name_terminates.
+
+(* The message decoder is total on every list of octets, of any length: it returns a message or an
+   error; it never panics (no slice/index out of range) and never runs out of fuel. *)
+Theorem C01_decode_safe : forall bs : list N, safe (unpack_msg bs).
+Proof. exact unpack_msg_safe. Qed.
+Print Assumptions C01_decode_safe.
+
+(* What it accepts is well-formed: names of 1..63-octet labels, at most 254 octets, all fields in
+   range, typed RDATA of the right shape — the hypothesis every later codec theorem uses. *)
+Theorem C01_decode_wf : forall (bs : list N) (m : msg), bytes bs -> unpack_msg bs = Ok m -> wf_msg m.
+Proof. exact unpack_msg_wf. Qed.
+Print Assumptions C01_decode_wf.
+
+(* Name operations applied to query names before any other validation are total too. *)
+Theorem C01_scan_total : forall n : list N, safe (scan n).
+Proof. exact scan_total. Qed.
+Print Assumptions C01_scan_total.
+
+(* non-vacuity: a compression-pointer loop is rejected (not looped on); a valid query is accepted *)
+Example C01_example_loop :
+  unpack_msg [0;1;1;0;0;1;0;0;0;0;0;0; 192;12; 0;1;0;1]%N = Err ETooManyPtr.
+Proof. vm_compute. reflexivity. Qed.
+Example C01_example_ok :
+  is_ok (unpack_msg [0;1;1;0;0;1;0;0;0;0;0;0; 1;97;0; 0;1;0;1]%N) = true.
+Proof. vm_compute. reflexivity. Qed.
